@@ -357,6 +357,10 @@ impl NodeState {
             );
             return;
         };
+        if versioned_value.is_deleted() {
+            // The key is already deleted (tombstoned): it is invisible to readers and must stay so.
+            return;
+        }
         self.max_version += 1;
         versioned_value.version = self.max_version;
         versioned_value.status = DeletionStatusMutation::DeleteAfterTtl.into_status(Instant::now());
